@@ -1,5 +1,6 @@
 import GlueVerif.Sexp
 import GlueVerif.Model.C02Serial
+import GlueVerif.Model.C02Records
 import GlueVerif.Generated.C02Registry
 /-! Line-protocol driver for C02 (session round trip).
 
@@ -7,6 +8,7 @@ families
   (fw   (main heap) pyout)      synthetic graphs through the real GlueSerializer / GlueUnSerializer
   (sess (tags…) pyout)          real sessions: canonical snapshots before / after / after the 2nd trip
   (cls  (name expect) pyout)    one class of the generated table: restored type and behaviour
+  (rec  () pyout)               objects of the record table: real saver output / restored fields vs `encode` / `decode`
 -/
 open GlueVerif GlueVerif.Sexp GlueVerif.C02
 
@@ -103,9 +105,10 @@ def sexpToView? (names : List Str) : Sexp → Option View
       | _ => none
   | _ => none
 
-/-- Hypothesis of the proved round-trip theorem, as evaluated on a case. -/
+/-- Hypothesis of the proved round-trip theorems (`roundtrip_framework_cycles` ∨ `roundtrip_framework_callbacks`;
+`roundtrip_framework` is a special case of the former), as evaluated on a case. -/
 def inP (h : Heap) (main : Nat) : Bool :=
-  wellFormed h main && noOwn h &&
+  wellFormed h main && inlineForestBy (ownHeight h (h.length + 1)) h main &&
     ((noCb h && lateCyclesBy (candidateRank h) h) ||
      (noGenCb h && mainPlain h main && cyclesBy (candidateRank h) h && coveredBy (candidateDist h main) h main))
 
@@ -254,11 +257,234 @@ def clsStep (caseE pyout : Sexp) : String :=
     res impl ok true true (if isNoRecipe then "no-recipe-" ++ br else br)
   | _ => bad "cls-case"
 
+/-! ### rec -/
+
+section RecFamily
+open GlueVerif.C02.Cls
+
+def atomStr? : Sexp → Option String
+  | .atom a => if a.startsWith "s:" then some (a.drop 2).toString else none
+  | _ => none
+
+def pv? : Sexp → Option PV
+  | .list [.atom "lit", n] => n.toInt?.map .lit
+  | .list (.atom "str" :: cs) => (cs.mapM toNat?).map fun ns => .str (ns.map Char.ofNat)
+  | .list [.atom "obj", k] => k.toNat?.map .obj
+  | _ => none
+
+def pvSexp : PV → Sexp
+  | .lit n => .list [.atom "lit", ofInt n]
+  | .str s => .list (.atom "str" :: s.map fun c => ofNat c.toNat)
+  | .obj o => .list [.atom "obj", ofNat o]
+
+def lit? : Sexp → Option Lit
+  | .list [.atom "lit", n] => n.toInt?
+  | _ => none
+
+def litSexp (n : Lit) : Sexp := .list [.atom "lit", ofInt n]
+
+def objId? : Sexp → Option Nat
+  | .list [.atom "obj", k] => k.toNat?
+  | _ => none
+
+def objSexp (o : Nat) : Sexp := .list [.atom "obj", ofNat o]
+
+def pvs? : Sexp → Option (List PV)
+  | .list (.atom "list" :: xs) => xs.mapM pv?
+  | _ => none
+
+def pvsSexp (l : List PV) : Sexp := .list (.atom "list" :: l.map pvSexp)
+
+def pairs? : Sexp → Option (List (PV × PV))
+  | .list (.atom "list" :: xs) => xs.mapM fun e => match e with
+    | .list [.atom "list", a, b] => do some (← pv? a, ← pv? b)
+    | _ => none
+  | _ => none
+
+def pairsSexp (l : List (PV × PV)) : Sexp :=
+  .list (.atom "list" :: l.map fun p => .list [.atom "list", pvSexp p.1, pvSexp p.2])
+
+def str? : Sexp → Option Str
+  | .list (.atom "str" :: cs) => (cs.mapM toNat?).map fun ns => ns.map Char.ofNat
+  | _ => none
+
+def strSexp (s : Str) : Sexp := .list (.atom "str" :: s.map fun c => ofNat c.toNat)
+
+partial def jv? : Sexp → Option JV
+  | .list [.atom "lit", n] => n.toInt?.map .lit
+  | .list (.atom "str" :: cs) => (cs.mapM toNat?).map fun ns => .str (ns.map Char.ofNat)
+  | .list [.atom "name", k] => k.toNat?.map .name
+  | .list [.atom "inl", k] => k.toNat?.map .inl
+  | .list (.atom "list" :: xs) => (xs.mapM jv?).map .list
+  | _ => none
+
+partial def jvSexp : JV → Sexp
+  | .lit n => .list [.atom "lit", ofInt n]
+  | .str s => .list (.atom "str" :: s.map fun c => ofNat c.toNat)
+  | .name o => .list [.atom "name", ofNat o]
+  | .inl o => .list [.atom "inl", ofNat o]
+  | .list xs => .list (.atom "list" :: xs.map jvSexp)
+
+def rec? : Sexp → Option Rec
+  | .list es => es.mapM fun e => match e with
+    | .list [k, v] => do some (← atomStr? k, ← jv? v)
+    | _ => none
+  | _ => none
+
+def recSexp (r : Rec) : Sexp := .list (r.map fun kv => .list [.atom ("s:" ++ kv.1), jvSexp kv.2])
+
+def tagOfName (n : String) : Option Tag := Tag.all.find? fun t => t.name == n
+
+/-- the typed object from the field values the harness read off the python object -/
+def bodyOf (t : Tag) (xs : List Sexp) : Option Body :=
+  match t, xs with
+  | .RectangularROI, [a, b, c, d, e] => do some (.rect ⟨← lit? a, ← lit? b, ← lit? c, ← lit? d, ← lit? e⟩)
+  | .RangeROI, [o, a, b] => do some (.range ⟨← Ori.ofSym (← str? o), ← lit? a, ← lit? b⟩)
+  | .XRangeROI, [a, b] => do some (.xrange ⟨← lit? a, ← lit? b⟩)
+  | .YRangeROI, [a, b] => do some (.yrange ⟨← lit? a, ← lit? b⟩)
+  | .CircularROI, [a, b, c] => do some (.circ ⟨← lit? a, ← lit? b, ← lit? c⟩)
+  | .CircularAnnulusROI, [a, b, c, d] => do some (.annulus ⟨← lit? a, ← lit? b, ← lit? c, ← lit? d⟩)
+  | .EllipticalROI, [a, b, c, d, e] => do some (.ellipse ⟨← lit? a, ← lit? b, ← lit? c, ← lit? d, ← lit? e⟩)
+  | .PolygonalROI, [a, b] => do some (.polygon ⟨← objId? a, ← objId? b⟩)
+  | .Path, [a, b] => do some (.path ⟨← objId? a, ← objId? b⟩)
+  | .CategoricalROI, [a] => do some (.catRoi ⟨← lit? a⟩)
+  | .Projected3dROI, [a, b] => do some (.proj3d ⟨← pv? a, ← lit? b⟩)
+  | .SubsetState, [] => some .baseState
+  | .RangeSubsetState, [a, b, c] => do some (.rangeSt ⟨← pv? a, ← pv? b, ← pv? c⟩)
+  | .MultiRangeSubsetState, [a, b] => do some (.multiRange ⟨← pairs? a, ← pv? b⟩)
+  | .InequalitySubsetState, [a, b, c] => do some (.ineq ⟨← pv? a, ← pv? b, ← Op.ofSym (← str? c)⟩)
+  | .CategorySubsetState, [a, b] => do some (.category ⟨← pv? a, ← pv? b⟩)
+  | .ElementSubsetState, [a, b] => do
+      let u ← match lit? b, str? b with
+        | some n, _ => if n = litNone then some none else none
+        | _, some s => some (some s)
+        | _, _ => none
+      some (.element ⟨← pv? a, u⟩)
+  | .SliceSubsetState, [a, b] => do some (.sliceSt ⟨← pv? a, ← pv? b⟩)
+  | .MaskSubsetState, [a, b] => do some (.mask ⟨← pvs? a, ← pv? b⟩)
+  | .RoiSubsetState, [a, b, c, d] => do some (.roiSt ⟨← pv? a, ← pv? b, ← pv? c, ← pv? d⟩)
+  | .RoiSubsetStateNd, [a, b, c] => do some (.roiNd ⟨← pvs? a, ← pv? b, ← pv? c⟩)
+  | .RoiSubsetState3d, [a, b, c, d, e] => do some (.roi3d ⟨← pv? a, ← pv? b, ← pv? c, ← pv? d, ← pv? e⟩)
+  | .CategoricalROISubsetState, [a, b] => do some (.catRoiSt ⟨← pv? a, ← pv? b⟩)
+  | .CategoricalROISubsetState2D, [a, b, c] => do some (.catRoi2d ⟨← lit? a, ← pv? b, ← pv? c⟩)
+  | .CategoricalMultiRangeSubsetState, [a, b, c] => do some (.catMultiRange ⟨← lit? a, ← pv? b, ← pv? c⟩)
+  | .AndState, [a, b] => do some (.composite ⟨.and_, ← pv? a, ← pv? b⟩)
+  | .OrState, [a, b] => do some (.composite ⟨.or_, ← pv? a, ← pv? b⟩)
+  | .XorState, [a, b] => do some (.composite ⟨.xor, ← pv? a, ← pv? b⟩)
+  | .InvertState, [a, b] => do some (.composite ⟨.invert, ← pv? a, ← pv? b⟩)
+  | .MultiOrState, [a] => do some (.multiOr ⟨← pvs? a⟩)
+  | .FloodFillSubsetState, [a, b, c] => do some (.floodFill ⟨← pv? a, ← lit? b, ← lit? c⟩)
+  | .AffineCoordinates, [a, b, c] => do some (.affine ⟨← pv? a, ← lit? b, ← lit? c⟩)
+  | .IdentityCoordinates, [a] => do some (.identityCoords ⟨← lit? a⟩)
+  | .Coordinates, [] => some .baseCoords
+  | .LinkCollection, [a, b, c, d] => do some (.linkColl ⟨← pv? a, ← pv? b, ← pv? c, ← pv? d⟩)
+  | .MultiLink, [a, b, c, d, f, g, l1, l2] => do
+      some (.multiLink ⟨⟨← pv? a, ← pv? b, ← pv? c, ← pv? d⟩, ← pv? f, ← pv? g, ← lit? l1, ← lit? l2⟩)
+  | .LinkSame, [a, b] => do some (.linkSame ⟨← pv? a, ← pv? b⟩)
+  | .LinkSameWithUnits, [a, b] => do some (.linkUnits ⟨← pv? a, ← pv? b⟩)
+  | .LinkTwoWay, [a, b, c, d] => do some (.linkTwoWay ⟨← pv? a, ← pv? b, ← pv? c, ← pv? d⟩)
+  | .LinkAligned, [a, b] => do some (.linkAligned ⟨← pv? a, ← pv? b⟩)
+  | .PartialResult, [a, b] => do some (.partialResult ⟨← pv? a, ← lit? b⟩)
+  | .slice, [a, b, c] => do some (.pySlice ⟨← lit? a, ← lit? b, ← lit? c⟩)
+  | .tuple, [a] => do some (.pyTuple ⟨← pvs? a⟩)
+  | .list, [a] => do some (.pyList ⟨← pvs? a⟩)
+  | _, _ => none
+
+/-- the field values of a typed object, in the harness's order -/
+def fieldsOf : Body → List Sexp
+  | .rect f => [litSexp f.xmin, litSexp f.xmax, litSexp f.ymin, litSexp f.ymax, litSexp f.theta]
+  | .range f => [strSexp f.ori.sym, litSexp f.min, litSexp f.max]
+  | .xrange f => [litSexp f.min, litSexp f.max]
+  | .yrange f => [litSexp f.min, litSexp f.max]
+  | .circ f => [litSexp f.xc, litSexp f.yc, litSexp f.radius]
+  | .annulus f => [litSexp f.xc, litSexp f.yc, litSexp f.inner, litSexp f.outer]
+  | .ellipse f => [litSexp f.xc, litSexp f.yc, litSexp f.rx, litSexp f.ry, litSexp f.theta]
+  | .polygon f => [objSexp f.vx, objSexp f.vy]
+  | .path f => [objSexp f.vx, objSexp f.vy]
+  | .catRoi f => [litSexp f.categories]
+  | .proj3d f => [pvSexp f.roi2d, litSexp f.matrix]
+  | .baseState => []
+  | .rangeSt f => [pvSexp f.lo, pvSexp f.hi, pvSexp f.att]
+  | .multiRange f => [pairsSexp f.pairs, pvSexp f.att]
+  | .ineq f => [pvSexp f.left, pvSexp f.right, strSexp f.op.sym]
+  | .category f => [pvSexp f.att, pvSexp f.vals]
+  | .element f => [pvSexp f.indices, match f.uuid with | none => litSexp litNone | some s => strSexp s]
+  | .sliceSt f => [pvSexp f.slices, pvSexp f.refData]
+  | .mask f => [pvsSexp f.cids, pvSexp f.mask]
+  | .roiSt f => [pvSexp f.xatt, pvSexp f.yatt, pvSexp f.roi, pvSexp f.pretransform]
+  | .roiNd f => [pvsSexp f.atts, pvSexp f.roi, pvSexp f.pretransform]
+  | .roi3d f => [pvSexp f.xatt, pvSexp f.yatt, pvSexp f.zatt, pvSexp f.roi, pvSexp f.pretransform]
+  | .catRoiSt f => [pvSexp f.att, pvSexp f.roi]
+  | .catRoi2d f => [litSexp f.categories, pvSexp f.att1, pvSexp f.att2]
+  | .catMultiRange f => [litSexp f.ranges, pvSexp f.catAtt, pvSexp f.numAtt]
+  | .composite f => [pvSexp f.state1, pvSexp f.state2]
+  | .multiOr f => [pvsSexp f.states]
+  | .floodFill f => [pvSexp f.att, litSexp f.startCoords, litSexp f.threshold]
+  | .affine f => [pvSexp f.matrix, litSexp f.labels, litSexp f.units]
+  | .identityCoords f => [litSexp f.ndim]
+  | .baseCoords => []
+  | .linkColl f => [pvSexp f.data1, pvSexp f.data2, pvSexp f.cids1, pvSexp f.cids2]
+  | .multiLink f => [pvSexp f.coll.data1, pvSexp f.coll.data2, pvSexp f.coll.cids1, pvSexp f.coll.cids2,
+      pvSexp f.forwards, pvSexp f.backwards, litSexp f.labels1, litSexp f.labels2]
+  | .linkSame f => [pvSexp f.cid1, pvSexp f.cid2]
+  | .linkUnits f => [pvSexp f.cid1, pvSexp f.cid2]
+  | .linkTwoWay f => [pvSexp f.cid1, pvSexp f.cid2, pvSexp f.forwards, pvSexp f.backwards]
+  | .linkAligned f => [pvSexp f.data1, pvSexp f.data2]
+  | .partialResult f => [pvSexp f.func, litSexp f.index]
+  | .pySlice f => [litSexp f.start, litSexp f.stop, litSexp f.step]
+  | .pyTuple f => [pvsSexp f.items]
+  | .pyList f => [pvsSexp f.items]
+
+/-- One observed object `(tag x (type R) y)`: the model's prediction of the observation (the saver returns
+`encode x` under the class's own `_type`, the restored fields are `x`) and the Spec verdict on the python
+observation — `R = encode x`, `decode R = y`, `y = x`. -/
+def recInst (inst : Sexp) : Sexp × Bool × Bool :=
+  match inst with
+  | .list [tagE, .list xs, .list [typE, rE], yE] =>
+    match (atomStr? tagE).bind tagOfName with
+    | none => (.list [tagE, .atom "unknown-class"], false, false)
+    | some t =>
+      match bodyOf t xs with
+      | none => (.list [tagE, .atom "bad-fields"], false, false)
+      | some b =>
+        let enc := b.encode
+        let impl := Sexp.list [tagE, .list xs, .list [.atom ("s:" ++ enc.typ.name), recSexp enc.dict], .list xs]
+        -- Spec on the model's own prediction: the transcribed loader rebuilds the fields
+        let implok := match Body.decode enc with
+          | some b' => fieldsOf b' == xs
+          | none => false
+        -- Spec on the python observation
+        let typOk := typE == .atom ("s:" ++ t.name)
+        let encOk := rE == recSexp enc.dict
+        let decOk := match rec? rE with
+          | some r => match Body.decode { typ := t, dict := r } with
+            | some b' => Sexp.list (fieldsOf b') == yE
+            | none => false
+          | none => false
+        let idOk := yE == Sexp.list xs
+        (impl, typOk && encOk && decOk && idOk, implok)
+  | other => (other, false, false)
+
+def recStep (pyout : Sexp) : String :=
+  match pyout with
+  | .list (.atom "ok" :: insts) =>
+    let rs := insts.map recInst
+    let impl := Sexp.list (.atom "ok" :: rs.map (·.1))
+    let ok := rs.all (·.2.1)
+    let implok := rs.all (·.2.2)
+    res impl ok implok true ("insts-" ++ toString (min insts.length 9))
+  | .list [.atom "save-error"] => res pyout true true true "save-error"
+  | .list [.atom "unbuildable"] => res pyout true true true "unbuildable"
+  | other => res (.atom "ok-expected") false true true (match other with | .list (.atom a :: _) => a | _ => "malformed")
+
+end RecFamily
+
 def step (line : String) : String :=
   match Sexp.parse line with
   | some (.list [.atom "fw", c, py]) => fwStep c py
   | some (.list [.atom "sess", c, py]) => sessStep c py
   | some (.list [.atom "cls", c, py]) => clsStep c py
+  | some (.list [.atom "rec", _, py]) => recStep py
   | _ => bad "unknown-family"
 
 def main : IO Unit := driverLoop step
